@@ -97,6 +97,9 @@ func TestVerif_C17(t *testing.T) {
 	for ep := 0; ep < evid.Pick(1, 6) && rec.Violations() < 30; ep++ {
 		vfC17OverlappingStops(rec, ep)
 	}
+	for ep := 0; ep < evid.Pick(4, 40) && rec.Violations() < 30; ep++ {
+		vfC17ApiCallAcrossShutdown(rec, ep)
+	}
 	// every server of this run has been stopped: no accept / connection / cleanup goroutine may remain
 	left := vfAbsnfsGoroutines("acceptLoop", "handleConnectionLoop", "idleConnectionCleanupLoop")
 	if len(left) > 0 {
@@ -809,5 +812,92 @@ func vfC17OverlappingStops(rec *evid.Rec, ep int) {
 		if err := srv.srv.Stop(); err != nil {
 			rec.Inconclusive(1)
 		}
+	}
+}
+
+// vfC17ApiCallAcrossShutdown: the library's own exported operations (Lookup, GetAttr, ReadDir) may be
+// in progress - inside a slow backend call - when Close / Unexport runs; they are not connections, so
+// nothing waits for them. Whatever they bring back afterwards, the caches the shutdown emptied stay
+// empty: a result obtained before the shutdown is not stored after it.
+func vfC17ApiCallAcrossShutdown(rec *evid.Rec, ep int) {
+	how := []string{"Close", "Unexport"}[ep%2]
+	op := []string{"Lookup", "GetAttr", "ReadDir"}[(ep/2)%3]
+	fs := refs.New()
+	fs.PlantDir("/d", 0755, 0, 0)
+	fs.PlantFile("/d/slow", []byte("x"), 0644, 0, 0)
+	n, err := New(fs, ExportOptions{AttrCacheTimeout: time.Hour, EnableDirCache: true, DirCacheTimeout: time.Hour})
+	if err != nil {
+		rec.Infra(err.Error())
+		return
+	}
+	vfQuiet(n)
+	if err := n.Export("/", 0); err != nil {
+		rec.Infra(err.Error())
+		return
+	}
+	n.exportServer.logger.SetOutput(io.Discard)
+	dnode, derr := n.Lookup("/d")
+	fnode, ferr := n.Lookup("/d/slow")
+	if derr != nil || ferr != nil {
+		rec.Infra("lookup")
+		n.Close()
+		return
+	}
+	n.attrCache.Clear()
+	n.dirCache.Clear()
+	parked, open := make(chan struct{}), make(chan struct{})
+	var once sync.Once
+	fs.SetHook(func(o *refs.Op, ph refs.Phase) error {
+		if ph == refs.After && (o.Name == "Lstat" && o.Path == "/d/slow" || o.Name == "File.Readdir" && o.Path == "/d") {
+			first := false
+			once.Do(func() { first = true })
+			if first {
+				close(parked)
+				<-open
+			}
+		}
+		return nil
+	})
+	apiDone := make(chan struct{})
+	go func() {
+		defer close(apiDone)
+		defer func() { recover() }()
+		switch op {
+		case "Lookup":
+			n.Lookup("/d/slow")
+		case "GetAttr":
+			n.GetAttr(fnode)
+		default:
+			n.ReadDir(dnode)
+		}
+	}()
+	select {
+	case <-parked:
+	case <-time.After(20 * time.Second):
+		rec.Inconclusive(1)
+		close(open)
+		n.Close()
+		return
+	}
+	if how == "Close" {
+		n.Close()
+	} else {
+		n.Unexport()
+	}
+	close(open) // the backend answers only now, after the shutdown call has returned
+	select {
+	case <-apiDone:
+	case <-time.After(30 * time.Second):
+		rec.Inconclusive(1)
+		return
+	}
+	fs.SetHook(nil)
+	rec.Eval(1)
+	if a, d := n.attrCache.Size(), n.dirCache.Size(); a != 0 || d != 0 {
+		rec.Violate("C17/caches-refilled-after-"+how+"-by-a-call-that-started-before-it/op="+op, fmt.Sprintf("%s(...) had read the backend before %s() and finished after it: attr-cache=%d dir-cache=%d entries afterwards", op, how, a, d), nil)
+	}
+	rec.Distinct(fmt.Sprintf("api-call-across-shutdown|%s|%s", how, op))
+	if how == "Unexport" {
+		n.Close()
 	}
 }
